@@ -1,7 +1,11 @@
 /-
   Props.C12 — the mempool stays conflict-free, spendable and internally consistent (client/txpool).
   Every theorem is about the definitions of Model/Mempool.lean that the oracle executes and the harness
-  go/cmd/c12 compares with the real package after every operation.
+  go/cmd/c12 compares with the real package after every operation. The theorems are stated for arbitrary index functions
+  `K : Keys`; the oracle executes `K = realKeys` (BIDX = bytes 0..7 of the txid, UIdx = bytes 24..31 xor the low 32 bits of
+  the output index). That the key hypotheses (`Univ`, `Univ2`) are satisfiable for `realKeys` is `key_hypotheses_realKeys`
+  below, and the non-vacuity instances of `section real` run every central theorem at `K = realKeys` over 256-bit txids.
+  (Until the second audit `Univ2.uidx_play` ranged over all output indexes and was unsatisfiable for `realKeys`.)
 -/
 import GocoinV.Model.Mempool
 import GocoinV.Spec.MempoolTemplate
@@ -22,6 +26,11 @@ import GocoinV.Proofs.C12PanicSort
 import GocoinV.Proofs.C12PanicUndo
 import GocoinV.Proofs.C12Wrap
 import GocoinV.Proofs.C12Seed4
+import GocoinV.Proofs.C12Toy
+import GocoinV.Proofs.C12Real
+import GocoinV.Proofs.C12Fuel
+import GocoinV.Proofs.C12Maturity
+import GocoinV.Proofs.C12Example2
 namespace GocoinV.Props.C12
 open GocoinV.Mempool
 
@@ -138,15 +147,13 @@ theorem replaced_parent_refused (K : Keys) (mf : Nat) (s : State) (t : Tx) (fl :
   have c := rejectTx_core K s t R_BAD_INPUT none
   exact ⟨trivial, c.1, c.2.1⟩
 
-/-- Under `InvS` no two pooled records spend the same UIdx; with UIdx injective on outpoints (explicit
-    hypothesis: the code's 64-bit index is not injective in general) no two pooled transactions spend the same
-    outpoint. -/
+/-- Under `InvS` two pooled records that have an input naming the same outpoint are the same record: no two pooled
+    transactions spend the same outpoint. (No injectivity of UIdx is needed for this direction: equal outpoints have equal
+    UIdx. The former hypothesis `hinj` — UIdx injective on ALL pairs — was unused and, for `realKeys`, unsatisfiable.) -/
 theorem no_double_spend (K : Keys) (s : State) (h : InvS K s)
-    (hinj : ∀ a b c d, K.uidx a b = K.uidx c d → a = c ∧ b = d)
     (b1 b2 : Nat) (t1 t2 : T2S) (h1 : s.pool.get? b1 = some t1) (h2 : s.pool.get? b2 = some t2)
     (i1 i2 : TxIn) (m1 : i1 ∈ t1.tx.ins) (m2 : i2 ∈ t2.tx.ins)
     (heq : i1.prev = i2.prev ∧ i1.vout = i2.vout) : b1 = b2 := by
-  have _ := hinj
   have u1 : K.uidx i1.prev i1.vout ∈ uidxs K t1.tx := List.mem_map.mpr ⟨i1, m1, rfl⟩
   have u2 : K.uidx i1.prev i1.vout ∈ uidxs K t2.tx := List.mem_map.mpr ⟨i2, m2, by rw [heq.1, heq.2]⟩
   have e1 := h.complete b1 t1 h1 _ u1
@@ -198,8 +205,14 @@ theorem rbf_listing_valid (K : Keys) (s : State) (l : List Nat) (pks : List Pkg)
         of an outpoint), no pooled transaction spends an outpoint twice, TransactionsToSendWeight = Σ weights
         (sizes are fields of the modelled transaction, hence exact by construction);
     plus the structural part (`pool_inv_struct`).
-    Hypotheses. `Univ2`, about the set `W` of transactions of the history only: `Univ` (above), BIDX / UIdx do not
-    collide on the txids in play, no transaction of the history has an output in `u0`, `ν` gives the output values.
+    Hypotheses. `Univ2`, about the set `W` of transactions of the history only: `Univ` (above), BIDX does not collide on
+    the txids in play (`Play`: ids of the transactions and of the outputs their inputs name), UIdx does not collide on the
+    pairs (txid in play, output index in play) — `VPlay`: the `vout` of an input of the history or an index into the
+    outputs of one of its transactions; NOT all naturals: the code's UIdx reads 32 bits of the index —, no transaction of
+    the history has an output in `u0`, `ν` gives the output values. Satisfiable for `realKeys`: `key_hypotheses_realKeys`.
+    `alive` also covers the model's own iteration budget for the txAccepted loop (`txAccFuel`; the Go loop is unbounded):
+    a run in which it ran out has the flag set and is outside this theorem — `orphan_budget_irrelevant` shows that an
+    alive run is the run of the unbounded loop.
     `ValidRun`, about the blocks of the history only (fourth pass; it reads nothing but the confirmed set and the undo
     stack of the state each `block` operation is applied to): every connected block body is `BlockValid` = `BlockOK`
     (every input unspent-confirmed or created earlier in the block, consumed once) ∧ its txids are new (not confirmed,
@@ -347,14 +360,29 @@ theorem fee_exact (K : Keys) (ν : OutPoint → Nat) (s : State) (h : PoolInv K 
   obtain ⟨h1, h2⟩ := h.fee b t hb
   omega
 
--- OPEN: coinbase maturity of the template. `BlockOK` has no maturity rule and the model's blocks carry no coinbase (coinbase
--- coins exist only in the initial set `u0`, with their flag and height). The 4th `fix:` commit (BlockUndone →
--- removeUnspendableCoinbaseSpends) is modelled (`unspendableAt`, `unspendableKeys`, `blockUndoneAt`) and every invariant
--- theorem above is re-proved for it, but the statement it is there for,
---   ∀ pooled t in `step K s (.undo h mf)` (alive), unspendableAt (step K s (.undo h mf)) h t = false
--- (no pooled transaction spends a coinbase that a block of height h cannot spend), and its extension to all histories
--- (processTx's CB_INMATURE check + `tip` monotone between undos) are NOT proved: tested by the harness only
--- (corpus:coinbase-undo, gen:just-matured-coinbase + op:undo-bare, template validated by the node at every state).
+/-- WHAT THE 4th `fix:` COMMIT ACHIEVES (BlockUndone → removeUnspendableCoinbaseSpends; second audit: first half of the
+    formerly OPEN maturity statement). Undo the last block (its height `h`) from any state with the carried invariants
+    `Full`, the operation being admissible (`AdmOp`: `UndoCommitTxs`, derived from `ValidRun` for plain histories). If the
+    process is alive afterwards, NO pooled record has a confirmed (MemInputs flag clear) input that a block of height `h`
+    — the next block — cannot spend: each such input exists in the confirmed set and, if it is a coinbase output, has
+    `h - its height ≥ COINBASE_MATURITY` (uint32 arithmetic as in the Go code). Before the fix the put-back state kept a
+    pooled spend of a coinbase that had matured exactly with the undone block. -/
+theorem undo_leaves_no_immature_spend (K : Keys) (W : Tx → Prop) (rank : TxId → Nat) (u0 : UT) (ν : OutPoint → Nat)
+    (U : Univ2 K W rank u0 ν) (s s' : State) (txs : List Tx) (h mf : Nat) (f : Full K W u0 ν s)
+    (hd : disconnectUtxo s = some (s', txs)) (ha : AdmOp u0 ν s (.undo h mf))
+    (alive : (step K s (.undo h mf)).panicked = false) :
+    ∀ b t, (step K s (.undo h mf)).pool.get? b = some t → unspendableAt (step K s (.undo h mf)) h t = false := by
+  have e : step K s (.undo h mf) = blockUndoneAt K mf s' h txs := by simp only [step, hd]
+  rw [e] at alive ⊢
+  exact blockUndoneAt_clean U mf s s' h txs hd f.chain f.good f.inv (ha s' txs hd) alive
+
+-- OPEN: coinbase maturity of the template OVER ALL HISTORIES. `BlockOK` has no maturity rule and the model's blocks carry no
+-- coinbase (coinbase coins exist only in the initial set `u0`, with their flag and height). Proved: the state right after
+-- an undo is clean (`undo_leaves_no_immature_spend`), and processTx's admission test at both sides of the boundary
+-- (`input_boundaries`). NOT proved: that the two compose along a history (`tip` monotone between undos, the coin heights
+-- of `connectUtxo`) to "in every reachable alive state no pooled transaction spends a coinbase the next block cannot
+-- spend": tested by the harness only (corpus:coinbase-undo, corpus:coinbase-boundary, coinbases aged 98..101 in the random
+-- histories, op:undo-bare, template validated by the node at every state).
 
 /-- MAP-ITERATION ORDER IS AN INPUT. The Go code walks maps in two places whose order shows in the state (the batch of
     REPLACED records entering the reject ring; ties of sort.Slice in GetSortedMempoolSlow). The oracle adopts the observed
@@ -375,13 +403,29 @@ theorem resync_step_inv (K : Keys) (W : Tx → Prop) (rank : TxId → Nat) (u0 :
     `Move` = op | ring ks | sort ks | init k j, what the oracle really executes; `init` is a refused MempoolLoad /
     InitMempool, see `refused_load_inv`), provided each operation is admissible in the state it
     is applied to (`RAdm`: its transactions are in `W`, `AdmOp`, `UndoOK` — for plain runs these are derived from `ValidRun`
-    by `admRun_genesis` / `undoOK_of_full`; for resynced trajectories they are hypotheses). A trajectory without edits is a
-    `run` (`rrun_ops`). -/
+    by `admRun_genesis` / `undoOK_of_full`; FOR RESYNCED TRAJECTORIES THEY ARE HYPOTHESES: `AdmOp` of a `block` is the
+    semantic `ConnectSound`, of an `undo` `UndoCommitTxs`, and `UndoOK` of an `undo` is `UndoFresh` — not derived from
+    `BlockValid` here; for every other operation all three are `True`). A trajectory without edits is a `run` (`rrun_ops`). -/
 theorem resync_run_inv (K : Keys) (W : Tx → Prop) (rank : TxId → Nat) (u0 : UT) (ν : OutPoint → Nat)
     (U : Univ2 K W rank u0 ν) (ms : List Move) (s : State) (ha : RAdm K W u0 ν s ms)
     (f : Full K W u0 ν s) (r : RejInv K s) (q : SortInvP K s) :
     Full K W u0 ν (rrun K s ms) ∧ RejInv K (rrun K s ms) ∧ SortInvP K (rrun K s ms) :=
   rrun_inv U ms s ha f r q
+
+/-- … and for trajectories WITHOUT `undo` the admissibility hypothesis `RAdm` is derived, from the genesis state, from the
+    validity of the blocks alone (`RValid`: every `block` move carries a `BlockValid` body in the state it is applied to,
+    no `undo` move; Proofs/C12Example2 `radm_of_valid`: the resync edits and refused loads leave the chain side alone, so
+    `ConnectSound` follows as in plain runs). Hence: along every undo-free trajectory of operations, resync edits, refused
+    loads and purges with valid blocks, started from the empty pool over any confirmed set, `Full`, `RejInv` and the
+    sorted-list invariant hold. (For trajectories WITH undos `UndoCommitTxs` / `UndoFresh` remain hypotheses of
+    `resync_run_inv`.) -/
+theorem resync_run_inv_valid (K : Keys) (W : Tx → Prop) (rank : TxId → Nat) (u0 : UT) (ν : OutPoint → Nat)
+    (U : Univ2 K W rank u0 ν) (cfg : Cfg) (h0 : Nat) (hcap : 2 ≤ cfg.ringCap) (ms : List Move)
+    (hW : ∀ m ∈ ms, ∀ o, m = .op o → ∀ t ∈ o.txs, W t) (hv : C12Ex2.RValid K u0 (genesis cfg u0 h0) ms) :
+    Full K W u0 ν (rrun K (genesis cfg u0 h0) ms) ∧ RejInv K (rrun K (genesis cfg u0 h0) ms) ∧
+    SortInvP K (rrun K (genesis cfg u0 h0) ms) :=
+  rrun_inv U ms _ (C12Ex2.radm_of_valid U ms _ (chainInv_genesis U cfg h0) hW hv) (full_genesis U cfg h0)
+    (rejInv_genesis K cfg u0 h0 hcap) (sort_genesis K cfg u0 h0)
 
 /-- REFUSED LOAD. MempoolLoad (disk.go) fills TransactionsToSend, SpentOutputs and the reject structures while it reads
     mempool.dmp; when a read fails (the file was cut short by a crash during MempoolSave, is damaged, was written for
@@ -440,7 +484,10 @@ theorem listing_during_commit (K : Keys) (s : State) :
         `accept_pre` establishes at the call site in processTx: `accept_add_panicked` in Proofs/C12PanicSort), the
         fall-through of fixIndex (`FixFall`, the latent nil dereference after ~800 000 consecutive head insertions)
         being excluded by hypothesis.
-    NOT proved (they remain covered only by the hypothesis `alive`): BlockUndone's os.Exit(1) for a whole block — one
+    NOT proved (they remain covered only by the hypothesis `alive`): the model's iteration budget of the txAccepted loop
+    (`txAcceptedAux` at fuel 0 — not a Go panic at all: the Go loop is unbounded; `txAccFuel` = Σ over the rejected records
+    of 2 + #inputs, + |pool| + 4 is argued, not proved, to suffice; see `orphan_budget_irrelevant`, `deep_orphan_drains`);
+    BlockUndone's os.Exit(1) for a whole block — one
     iteration is `undoneStep_no_exit` in Proofs/C12PanicUndo, under hypotheses `BlockValid` does not give (inputs restored
     or created earlier in the block, no double spend inside the block, Σ outputs ≤ Σ inputs); Delete's recursion fuel
     (delWithChildren at fuel 0); `FixFall`. -/
@@ -469,11 +516,133 @@ theorem fee_products_nowrap (a b : T2S) (ha : a.fee < 2 ^ 44) (hb : b.fee < 2 ^ 
     ∀ x y : Nat, x < 2 ^ 44 → y < 2 ^ 20 → (x * y) % U64 = x * y :=
   ⟨better_eq_wrapped a b ha hb wa wb, fun x y hx hy => mul_nowrap x y hx hy⟩
 
+/-- THE KEY HYPOTHESES ARE SATISFIABLE FOR THE CODE'S OWN KEYS (second audit). For a universe `W` whose txids in play
+    differ pairwise in bytes 0..7 (their BIDX) and in bytes 28..31 (`hi32`: the half of the UIdx word the output index
+    cannot reach), and whose output indexes in play are below 2^32 (the wire format has no others), `realKeys` — the
+    keys the oracle executes — satisfies the collision hypotheses of `Univ` (`bidx_inj`, `uidx_inj`) and of `Univ2`
+    (`bidx_play`, `uidx_play`); the other fields of `Univ` / `Univ2` do not mention the keys. Real txids are hash values:
+    the two conditions fail for a pair of txids with probability 2^-64 resp. 2^-32 (a collision makes gocoin itself
+    confuse the two transactions; the theorems do not cover that). The second conjunct records why `uidx_play` cannot
+    be asked for all naturals: `uidx a 0 = uidx a 2^32` for every txid. -/
+theorem key_hypotheses_realKeys (W : Tx → Prop)
+    (hlo : ∀ a b, Play W a → Play W b → a % 2 ^ 64 = b % 2 ^ 64 → a = b)
+    (hhi : ∀ a b, Play W a → Play W b → hi32 a = hi32 b → a = b)
+    (hv : ∀ v, VPlay W v → v < 2 ^ 32) :
+    ((∀ a b, W a → W b → realKeys.bidx a.id = realKeys.bidx b.id → a.id = b.id) ∧
+     (∀ c t, W c → W t → ∀ i ∈ c.ins, ∀ v, realKeys.uidx i.prev i.vout = realKeys.uidx t.id v → i.prev = t.id) ∧
+     (∀ a b, Play W a → Play W b → realKeys.bidx a = realKeys.bidx b → a = b) ∧
+     (∀ a b v w, Play W a → Play W b → VPlay W v → VPlay W w → realKeys.uidx a v = realKeys.uidx b w →
+       a = b ∧ v = w)) ∧
+    ∀ a : TxId, realKeys.uidx a 0 = realKeys.uidx a (2 ^ 32) :=
+  ⟨realKeys_collision_free W hlo hhi hv, realKeys_not_injective_on_all_indexes⟩
+
+/-- THE ITERATION BUDGET OF THE ORPHAN LOOP DOES NOT SHOW IN AN ALIVE RUN. gocoin's txAccepted loops without a bound;
+    the model's `txAcceptedAux` carries a budget (`txAccFuel s`) and raises `panicked` when it runs out. If the loop
+    started with budget `n` ends alive, every larger budget `m` yields the very same state: the state an alive run
+    reaches is the state of the unbounded loop, the budget only decides whether the model answers. (That the budget
+    always suffices is NOT proved; when it does not, the oracle's state has the flag set and the harness reports a
+    mismatch with the real code.) -/
+theorem orphan_budget_irrelevant (K : Keys) (mf : Nat) (n m : Nat) (hle : n ≤ m) (s : State) (recs : List Nat) (d : Nat)
+    (h : (txAcceptedAux K mf n s recs d).panicked = false) :
+    txAcceptedAux K mf m s recs d = txAcceptedAux K mf n s recs d :=
+  txAcceptedAux_fuel_le K mf n m hle s recs d h
+
+/-- THE DEEP-ORPHAN FAMILY OF THE SECOND AUDIT (by evaluation of the model's own `run`). A chain X ← P1 ← … ← P20 of
+    unconfirmed transactions and an orphan O with 20 inputs, one output of every Pi; O arrives first, then P1 … P20 (each
+    an orphan of its predecessor), then the root X. gocoin pools all 22. So does the model: nothing stays rejected or
+    waiting, the process is alive; the loop started by X needs 54 iterations (53 are not enough), the budget is 87. The
+    budget the model had before (2·(|rej|+|pool|)+4 = 48) ran out and — then silently — left P20 and O rejected, a state
+    gocoin never reaches (`Deep.old_budget_short`). With the parents arriving in reverse order (chain of 8) everything is
+    pooled as well. The harness now generates this family on the real code (corpus:deep-orphan, gen:deep-orphan). -/
+theorem deep_orphan_drains :
+    ((run Deep.K0 Deep.s0 (Deep.ops 20)).pool.length = 22 ∧ (run Deep.K0 Deep.s0 (Deep.ops 20)).rej = [] ∧
+     (run Deep.K0 Deep.s0 (Deep.ops 20)).waiting = [] ∧ (run Deep.K0 Deep.s0 (Deep.ops 20)).panicked = false ∧
+     txAccFuel (Deep.sPre 20) = 87 ∧
+     (txAcceptedAux Deep.K0 0 53 (Deep.sPre 20) [100] 0).panicked = true ∧
+     (txAcceptedAux Deep.K0 0 54 (Deep.sPre 20) [100] 0).panicked = false) ∧
+    (2 * ((Deep.sPre 20).rej.length + (Deep.sPre 20).pool.length) + 4 = 48 ∧
+     (txAcceptedAux Deep.K0 0 48 (Deep.sPre 20) [100] 0).panicked = true) ∧
+    ((run Deep.K0 Deep.s0 (Deep.opsRev 8)).pool.length = 10 ∧ (run Deep.K0 Deep.s0 (Deep.opsRev 8)).rej = [] ∧
+     (run Deep.K0 Deep.s0 (Deep.opsRev 8)).panicked = false) :=
+  ⟨Deep.drains20, Deep.old_budget_short, Deep.drains8_rev⟩
+
+/-- usif.LoadRawTx ON A TRANSACTION THAT IS ALREADY POOLED ("make as own"): `submitLocal` answers 1000 + why and the only
+    change to the pool is the `Local` flag of that record — the transaction stored under every key, SpentOutputs, the
+    sorted list with its ranks, the reject side, the weight total and the panic flag are what they were after the
+    preceding DeleteRejectedByIdx. (The invariants are carried through this branch by `markLocal_same` /
+    `markLocal_good` / `markLocal_sort` / `markLocal_shrink`.) -/
+theorem local_on_pooled_marks_only (K : Keys) (s : State) (id : TxId) :
+    (markLocal K s id).spent = s.spent ∧ (markLocal K s id).rej = s.rej ∧ (markLocal K s id).ring = s.ring ∧
+    (markLocal K s id).waiting = s.waiting ∧ (markLocal K s id).rejSpent = s.rejSpent ∧
+    (markLocal K s id).sorted = s.sorted ∧ (markLocal K s id).ranks = s.ranks ∧
+    (markLocal K s id).sortDirty = s.sortDirty ∧ (markLocal K s id).weightTotal = s.weightTotal ∧
+    (markLocal K s id).panicked = s.panicked ∧
+    ∀ b, ((markLocal K s id).pool.get? b).map (fun r => (r.tx, r.fee, r.volume, r.mem, r.memCnt, r.final)) =
+         (s.pool.get? b).map (fun r => (r.tx, r.fee, r.volume, r.mem, r.memCnt, r.final)) := by
+  unfold markLocal
+  cases h : s.pool.get? (K.bidx id) with
+  | none => exact ⟨rfl, rfl, rfl, rfl, rfl, rfl, rfl, rfl, rfl, rfl, fun _ => rfl⟩
+  | some r =>
+    refine ⟨rfl, rfl, rfl, rfl, rfl, rfl, rfl, rfl, rfl, rfl, ?_⟩
+    intro b
+    show ((s.pool.set (K.bidx id) { r with loc := true }).get? b).map _ = (s.pool.get? b).map _
+    by_cases e : b = K.bidx id
+    · rw [e, AList.get?_set_self, h]; rfl
+    · rw [AList.get?_set_other _ _ _ _ e]
+
+/-- THE TWO INPUT BOUNDARIES OF processTx (decision logic of one iteration of the input loop, stated outright; the second
+    audit's surviving mutants sat exactly here). For an input whose UIdx nobody in the pool spends:
+    (1) confirmed coin, not the Unmined path: the input is refused CB_INMATURE iff the coin is a coinbase output and
+        `Last.BlockHeight()+1 - coin height < COINBASE_MATURITY` — 99 confirmations refused, 100 accepted — otherwise it is
+        taken with the coin's value and MemInputs flag false;
+    (2) pooled parent: `vout ≥ len(parent outputs)` (in particular `vout = len`) is refused BAD_INPUT; a smaller `vout` is
+        taken with that output's value and flag true when the sender is trusted or AllowMemInputs is on, and refused
+        NOT_MINED otherwise.
+    The constants are the model's copies (compared with chain.COINBASE_MATURITY and the package's TX_REJECTED_* by the
+    harness at start-up, oracle command `consts`); the harness drives the real code on both sides of both boundaries
+    (corpus:coinbase-boundary, corpus:vout-boundary, corpus:no-mem-inputs and the random streams). -/
+theorem input_boundaries (K : Keys) (s : State) (fl : Flags) (a : Acc) (i : TxIn)
+    (hs : s.spent.get? (K.uidx i.prev i.vout) = none) :
+    (∀ c, fl.unmined = false → s.pool.get? (K.bidx i.prev) = none → s.utxo.get? (i.prev, i.vout) = some c →
+      (c.coinbase = true ∧ s.height + 1 - c.height < COINBASE_MATURITY →
+        inputStep K s fl a i = .error ⟨R_CB_INMATURE, true, none⟩) ∧
+      (¬ (c.coinbase = true ∧ s.height + 1 - c.height < COINBASE_MATURITY) →
+        ∃ a', inputStep K s fl a i = .ok a' ∧ a'.vals = a.vals ++ [c.value] ∧ a'.frommem = a.frommem ++ [false])) ∧
+    (∀ par, s.pool.get? (K.bidx i.prev) = some par →
+      (par.tx.outs.length ≤ i.vout → inputStep K s fl a i = .error ⟨R_BAD_INPUT, true, none⟩) ∧
+      (i.vout < par.tx.outs.length → (fl.trusted = true ∨ s.cfg.allowMem = true) →
+        ∃ a', inputStep K s fl a i = .ok a' ∧ a'.vals = a.vals ++ [par.tx.outs.getD i.vout 0] ∧
+          a'.frommem = a.frommem ++ [true]) ∧
+      (i.vout < par.tx.outs.length → fl.trusted = false → s.cfg.allowMem = false →
+        inputStep K s fl a i = .error ⟨R_NOT_MINED, true, none⟩)) := by
+  constructor
+  · intro c hu hp hc
+    unfold inputStep
+    simp only [hs, hp, hc, hu, bind, Except.bind, pure, Except.pure]
+    constructor
+    · rintro ⟨h1, h2⟩
+      simp [h1, h2, throw, throwThe, MonadExceptOf.throw]
+    · intro h
+      by_cases h1 : c.coinbase = true
+      · have h2 : ¬ s.height + 1 - c.height < COINBASE_MATURITY := fun h2 => h ⟨h1, h2⟩
+        simp [h1, h2]
+      · simp [h1]
+  · intro par hp
+    unfold inputStep
+    simp only [hs, hp, bind, Except.bind, pure, Except.pure]
+    refine ⟨?_, ?_, ?_⟩
+    · intro h
+      simp [h, throw, throwThe, MonadExceptOf.throw]
+    · intro h ht
+      have h' : ¬ i.vout ≥ par.tx.outs.length := by omega
+      rcases ht with ht | ht <;> simp [h', ht]
+    · intro h ht hm
+      have h' : ¬ i.vout ≥ par.tx.outs.length := by omega
+      simp [h', ht, hm, throw, throwThe, MonadExceptOf.throw]
+
 /-! non-vacuity -/
 
 def K0 : Keys := { bidx := id, uidx := fun a b => a * 1000 + b }
-def txA : Tx := { id := 7, ins := [⟨1, 0, 0⟩], outs := [50], nws := 100, size := 100, scriptOk := true }
-def txB : Tx := { id := 8, ins := [⟨7, 0, 0⟩], outs := [40], nws := 100, size := 100, scriptOk := true }
 def txD : Tx := { id := 9, ins := [⟨1, 0, 0⟩, ⟨1, 0, 0⟩], outs := [40], nws := 100, size := 100, scriptOk := true }
 def s0 : State := { utxo := [((1, 0), ⟨60, 1, false⟩)], height := 5 }
 def s2 : State := (submitNet K0 0 (submitNet K0 0 s0 txA false).2 txB false).2
@@ -584,9 +753,29 @@ example : BlockOK (fun o => (s0.utxo.get? o).isSome) [txA, txB] := by
   simp [BlockOK, Tx.inOps, TxIn.op, txA, txB, s0, AList.get?, Tx.creates]
 example : evict K0 s2 [7] = none := by decide
 
+/-! the coinbase boundary and the sweep after an undo (what `input_boundaries` and `undo_leaves_no_immature_spend` are about),
+    by evaluation: the coinbase output (1,0) of block 12 is refused at tip 110 (99 confirmations), accepted at tip 111 (100);
+    undoing block 111 sweeps that spend (it would need height 112) while the block's own transaction is put back -/
+def txM1 : Tx := { id := 30, ins := [⟨2, 0, 0⟩], outs := [55], nws := 100, size := 100, scriptOk := true }
+def txS1 : Tx := { id := 31, ins := [⟨1, 0, 0⟩], outs := [55], nws := 100, size := 100, scriptOk := true }
+def sC0 : State := { utxo := [((1, 0), ⟨60, 12, true⟩), ((2, 0), ⟨60, 1, false⟩)], height := 110 }
+def sC1 : State := run K0 sC0 [.block 111 [txM1] 0, .tip 111, .submitNet txS1 false 0]
+example : (submitNet K0 0 sC0 txS1 false).1 = R_CB_INMATURE ∧ sC1.pool.map (·.1) = [31] ∧
+    (step K0 sC1 (.undo 111 0)).pool.map (·.1) = [30] ∧ (step K0 sC1 (.undo 111 0)).panicked = false := by decide
+
+-- `orphan_budget_irrelevant` on the deep-orphan family: 54 iterations end alive, so the budget 87 gives the same state
+example : txAcceptedAux Deep.K0 0 87 (Deep.sPre 20) [100] 0 = txAcceptedAux Deep.K0 0 54 (Deep.sPre 20) [100] 0 :=
+  orphan_budget_irrelevant Deep.K0 0 54 87 (by decide) _ _ _ Deep.drains20.2.2.2.2.2.2
+-- `input_boundaries` on the coinbase of block 12 at tip 110 (99 confirmations: refused) and on txB's parent txA (vout = 1 =
+-- number of outputs of the pooled txA: refused BAD_INPUT; vout 0 taken with flag true)
+example : inputStep K0 sC0 {} {} ⟨1, 0, 0⟩ = .error ⟨R_CB_INMATURE, true, none⟩ :=
+  ((input_boundaries K0 sC0 {} {} ⟨1, 0, 0⟩ (by decide)).1 ⟨60, 12, true⟩ rfl (by decide) (by decide)).1 (by decide)
+example : inputStep K0 (submitNet K0 0 s0 txA false).2 {} {} ⟨7, 1, 0⟩ = .error ⟨R_BAD_INPUT, true, none⟩ :=
+  ((input_boundaries K0 (submitNet K0 0 s0 txA false).2 {} {} ⟨7, 1, 0⟩ (by decide)).2
+    { tx := txA, fee := 10, volume := 60, mem := [], memCnt := 0, loc := false, final := false } (by decide)).1 (by decide)
+
 /-- a universe for which the hypotheses of `pool_inv_struct` hold, and a history over it that fills the pool -/
 def K2 : Keys := { bidx := id, uidx := fun a _ => a }
-def W2 : Tx → Prop := fun t => t = txA ∨ t = txB
 def ops2 : List Op := [.tip 5, .submitNet txB false 0, .submitNet txA false 0, .resort, .reload, .expire [8]]
 example : InvS K2 (run K2 {} ops2) := by
   have univ2 : Univ K2 W2 id := by
@@ -630,45 +819,7 @@ example : (evict K0 s2 [8, 7]).isSome = true := by decide
 
 /-- a universe, an initial confirmed set and a value oracle for which the hypotheses of `pool_inv` hold, and an
     admissible history over it that fills the pool (chain of two) -/
-def K3 : Keys := { bidx := id, uidx := fun a v => a + 16 * v }
-def u3 : UT := [((1, 0), ⟨60, 1, false⟩)]
-def ν3 : OutPoint → Nat := fun o => if o.1 = 1 then 60 else if o.1 = 7 then [50].getD o.2 0 else [40].getD o.2 0
 def ops3 : List Op := [.tip 5, .submitNet txB false 0, .submitNet txA false 0, .resort, .reload]
-
-theorem univ3 : Univ2 K3 W2 id u3 ν3 := by
-  have play : ∀ a : Nat, Play W2 a → a = 1 ∨ a = 7 ∨ a = 8 := by
-    rintro a (⟨t, ht, rfl⟩ | ⟨t, ht, i, hi, rfl⟩)
-    · rcases ht with rfl | rfl <;> simp [txA, txB]
-    · rcases ht with rfl | rfl <;> simp [txA, txB] at hi <;> subst hi <;> simp
-  refine ⟨⟨?_, ?_, ?_, ?_, ?_⟩, ?_, ?_, ?_, ?_, ?_⟩
-  · intro a b _ _ h; exact h
-  · intro c t hc ht i hi v h
-    simp only [K3] at h
-    rcases hc with rfl | rfl <;> rcases ht with rfl | rfl <;> simp [txA, txB] at hi <;> subst hi <;>
-      simp [txA, txB] at h ⊢ <;> omega
-  · intro a b ha hb h
-    rcases ha with rfl | rfl <;> rcases hb with rfl | rfl <;> first | rfl | (simp [txA, txB] at h)
-  · intro a ha; rcases ha with rfl | rfl <;> simp [txA, txB]
-  · intro a ha i hi
-    rcases ha with rfl | rfl <;> simp [txA, txB] at hi <;> subst hi <;> decide
-  · intro a b _ _ h; exact h
-  · intro (a : Nat) (b : Nat) (v : Nat) (w : Nat) ha hb h
-    have h' : a + 16 * v = b + 16 * w := h
-    clear h
-    have pa := play a ha
-    have pb := play b hb
-    clear ha hb play
-    show (a : Nat) = b ∧ v = w
-    rcases pa with rfl | rfl | rfl <;> rcases pb with rfl | rfl | rfl <;> omega
-  · intro t ht v
-    rcases ht with rfl | rfl <;> simp [u3, txA, txB, AList.get?]
-  · intro t ht v
-    rcases ht with rfl | rfl <;> simp [ν3, txA, txB]
-  · intro o c h
-    simp only [u3, AList.get?] at h
-    split at h
-    · rename_i e; cases h; simp [ν3, ← e]
-    · cases h
 
 example : PoolInv K3 ν3 (run K3 (genesis {} u3 0) ops3) := by
   apply pool_inv K3 W2 id u3 ν3 univ3 {} 0 ops3
@@ -776,8 +927,77 @@ example : ∀ t, (run KX (genesis {} uX 0) opsX).pool.get? (KX.bidx t.tx.id) = s
   have f := run_full univX opsX _ (full_genesis univX {} 0) hWX ha
   intro t ht
   exact (panic_branches_unreachable KX WX id uX νX univX _).1 t f.chain (f.good aliveX) ht
+-- `undo_leaves_no_immature_spend` applies to the undo of that history (state after 6 operations, block [D] undone)
+example : ∃ s' txs, disconnectUtxo (sAt 6) = some (s', txs) ∧ txs = [tD] ∧
+    ∀ b t, (step KX (sAt 6) (.undo 6 0)).pool.get? b = some t → unspendableAt (step KX (sAt 6) (.undo 6 0)) 6 t = false := by
+  have hW6 : ∀ op ∈ opsX.take 6, ∀ t ∈ op.txs, WX t := fun op ho => hWX op (List.mem_of_mem_take ho)
+  have v6 : ValidRun KX uX (genesis {} uX 0) (opsX.take 6) :=
+    ⟨trivial, trivial, trivial, trivial, trivial, validX.2.2.2.2.2.1, trivial⟩
+  have a6 := admRun_genesis univX {} 0 (opsX.take 6) hW6 v6
+  have f : Full KX WX uX νX (sAt 6) := run_full univX (opsX.take 6) _ (full_genesis univX {} 0) hW6 a6
+  have a7 := admRun_genesis univX {} 0 opsX hWX validX
+  have ha : AdmOp uX νX (sAt 6) (.undo 6 0) := a7.2.2.2.2.2.2.1
+  cases hd : disconnectUtxo (sAt 6) with
+  | none => exact absurd hd (by decide)
+  | some p =>
+    obtain ⟨s', txs⟩ := p
+    refine ⟨s', txs, rfl, ?_, ?_⟩
+    · have : (disconnectUtxo (sAt 6)).map (·.2) = some [tD] := by decide
+      rw [hd] at this
+      exact Option.some.inj this
+    · exact undo_leaves_no_immature_spend KX WX id uX νX univX (sAt 6) s' txs 6 0 f hd ha (by decide)
 example : better { tx := tB, fee := 40, volume := 50, mem := [true], memCnt := 1, loc := false, final := false }
     { tx := tA, fee := 1, volume := 100, mem := [], memCnt := 0, loc := false, final := false } = true := by decide
 end rich
+
+/-! ### the central theorems AT THE KEYS THE ORACLE EXECUTES (`realKeys`), over 256-bit txids (Proofs/C12Example2.lean)
+  `opsR` (17 operations, reject ring of 3 slots): A ← B pooled, V refused (overspend, record without data), M pooled, resort,
+  A2 REPLACES A (RBF: A and B leave as REPLACED records, the ring evicts V), C child of A2, orphan O (NO_TXOU, waits for a
+  txid nobody has), `submitLocal` L, TRUSTED submit T (spends a mature coinbase), `submitLocal` A2 again (already pooled:
+  LoadRawTx's "make as own", code 1001, Local set), block 501 [M] (the pooled M mined), tip, resort, save + RELOAD, resort.
+  In the FINAL state the rejected list and the ring are NOT empty: O (202, data, Waiting4) and A (213 REPLACED, data);
+  WaitingForInputs and RejectedSpentOutputs are non-empty; two ring evictions happened on the way. `msR` (22 moves) is that
+  history behind a refused load (`init`), with a real `ring` edit (the two REPLACED records swapped — it changes which one
+  the ring evicts later) and a real `sort` edit (a tie of the sorted list swapped). -/
+section real
+open GocoinV.Props.C12Ex2
+
+example : Univ2 realKeys WR rankR uR νR := univR
+example : PoolInv realKeys νR (run realKeys (genesis cfgR uR 0) opsR) :=
+  pool_inv realKeys WR rankR uR νR univR cfgR 0 opsR hWR validR aliveR
+example : SortOK realKeys (run realKeys (genesis cfgR uR 0) opsR) :=
+  sorted_list_inv realKeys WR rankR uR νR univR cfgR 0 opsR hWR validR aliveR cleanR wrapR
+example : RejInv realKeys (run realKeys (genesis cfgR uR 0) opsR) :=
+  reject_index_inv realKeys WR rankR uR νR univR cfgR 0 capR opsR hWR validR aliveR
+example : BlockOK (fun o => ((run realKeys (genesis cfgR uR 0) opsR).utxo.get? o).isSome)
+    ((recsOf (run realKeys (genesis cfgR uR 0) opsR)
+      (sortedRBF realKeys (run realKeys (genesis cfgR uR 0) opsR) pksR)).map (·.tx)) :=
+  template_from_pool realKeys WR rankR uR νR univR cfgR 0 opsR hWR validR aliveR pksR pkgsR nowrapR
+example : Full realKeys WR uR νR (rrun realKeys (genesis cfgR uR 0) msR) ∧ RejInv realKeys (rrun realKeys (genesis cfgR uR 0) msR) ∧
+    SortInvP realKeys (rrun realKeys (genesis cfgR uR 0) msR) :=
+  resync_run_inv realKeys WR rankR uR νR univR msR _ radmR (full_genesis univR cfgR 0)
+    (rejInv_genesis realKeys cfgR uR 0 capR) (sort_genesis realKeys cfgR uR 0)
+example : Full realKeys WR uR νR (rrun realKeys (genesis cfgR uR 0) msR) ∧ RejInv realKeys (rrun realKeys (genesis cfgR uR 0) msR) ∧
+    SortInvP realKeys (rrun realKeys (genesis cfgR uR 0) msR) :=
+  resync_run_inv_valid realKeys WR rankR uR νR univR cfgR 0 capR msR hWmR rvalidR
+-- the key hypotheses of that universe come from `key_hypotheses_realKeys`
+example : ∀ a b v w, Play WR a → Play WR b → VPlay WR v → VPlay WR w → realKeys.uidx a v = realKeys.uidx b w →
+    a = b ∧ v = w :=
+  (key_hypotheses_realKeys WR (fun a b ha hb => loR a (playR a ha) b (playR b hb))
+    (fun a b ha hb => hiR a (playR a ha) b (playR b hb)) vplayR).1.2.2.2
+-- the final state: reject list and ring non-empty (an orphan with Waiting4 and a REPLACED record), pool of four
+example : (run realKeys (genesis cfgR uR 0) opsR).rej.map (fun p => (p.2.id, p.2.reason, p.2.tx.isSome, p.2.waiting4)) =
+      [(idO, 202, true, some idZ), (idA, 213, true, none)] ∧
+    (run realKeys (genesis cfgR uR 0) opsR).ring = [some (realKeys.bidx idA), some (realKeys.bidx idO)] ∧
+    (run realKeys (genesis cfgR uR 0) opsR).pool.map (fun p => (p.2.tx.id, p.2.loc)) =
+      [(idA2, true), (idT, false), (idL, true), (idC, false)] := by decide
+-- the replacement, the ring evictions, LoadRawTx on the pooled A2
+example : (submitNet realKeys 0 (sR 6) xA2 false).1 = 0 ∧
+    (sR 6).pool.map (·.2.tx.id) = [idM, idB, idA] ∧ (sR 7).pool.map (·.2.tx.id) = [idA2, idM] ∧
+    (sR 6).rej.has (realKeys.bidx idV) = true ∧ (sR 7).rej.has (realKeys.bidx idV) = false ∧
+    (submitLocal realKeys 0 (sR 11) xA2).1 = 1001 ∧
+    ((sR 11).pool.get? (realKeys.bidx idA2)).map (·.loc) = some false ∧
+    ((sR 12).pool.get? (realKeys.bidx idA2)).map (·.loc) = some true := by decide
+end real
 
 end GocoinV.Props.C12
